@@ -19,7 +19,9 @@ func hNotSigil(k string) {
 // hGenSeg: an arbitrary segment: '.'+symbolic key (or empty), '#'+index text (canonical 0..3, or
 // empty, or non-numeric, or negative)
 func hGenSeg() hSeg {
-	switch nondetIntRange(0, 8) {
+	switch nondetIntRange(0, 9) {
+	case 9:
+		return hSeg{sigil: '#', idx: 5, text: "5", num: true} // beyond count+1 of every list of the tree
 	case 0:
 		k := hBytesStr(1)
 		hNotSigil(k)
